@@ -133,7 +133,7 @@ func c02Devs() []c02Dev {
 	setI("max", "max_interval", c02Max...)
 	setI("min", "min_interval", c02Min...)
 	setI("deflt", "default_lifetime", c02Deflt...)
-	timers := []any{"", "0s", "1ns", "1.5s", "1h", "1h0m0.000000001s", "3601s", "-1ns", "abc"}
+	timers := []any{"", "0s", "1ns", "1.5s", "1h", "1h0m0.000000001s", "3601s", "-1ns", "abc", "auto", "infinite", "30", "3600.5s", "-500ms"}
 	setI("reach", "reachable_time", timers...)
 	setI("retrans", "retransmit_timer", timers...)
 	setI("hop", "hop_limit", 0, 1, 64, 255, 256, -1)
@@ -206,6 +206,10 @@ func c02Devs() []c02Dev {
 	setT("f-unknown", "pref64", "bogus", "x")
 	noT("f-struct", "pref64")
 	addT("f-struct", "pref64-2", "pref64", ref.Table{"prefix": "2001:db8:64::/96"})
+	add("f-struct", "pref64-default-after-explicit", func(d *ref.Doc) {
+		ts := tables(d, "pref64")
+		*ts = []ref.Table{{"prefix": "2001:db8:64::/96"}, {}, {"prefix": ""}}
+	})
 
 	// Debug and top level.
 	for _, a := range []string{"", ":9430", "[::1]:9430", "127.0.0.1:9430", "localhost:0", "localhost:65535", "localhost", "localhost:65536", "localhost:-1", "a:b:c", "[::1]", "localhost:http2x"} {
@@ -222,12 +226,13 @@ func c02Devs() []c02Dev {
 
 var (
 	c02Max = []any{"", "3s", "3.999999999s", "4s", "4.5s", "8s", "8.999999999s", "9s", "10s", "12.121212122s", "600s", "1800s",
-		"1800.000000001s", "1801s", "-4s", "abc", "0s", "30m"}
+		"1800.000000001s", "1801s", "-4s", "abc", "0s", "30m", "auto", "infinite", "600", "1800.5s"}
 	c02Min = []any{"auto", "", "2s", "2.999999999s", "3s", "3.000000001s", "3.5s", "3.9s", "4s", "6s", "7s", "449s", "450s", "450.000000001s", "451s",
-		"1350s", "1351s", "-3s", "abc", "0s"}
+		"1350s", "1351s", "-3s", "abc", "0s", "infinite", "3"}
 	c02Deflt = []any{"auto", "", "0s", "1s", "3s", "4s", "599s", "599.999999999s", "600s", "600.000000001s", "1800s", "1801s", "5400s", "9000s", "9000.000000001s", "9001s",
-		"infinite", "-1s", "-9000s", "abc"}
-	c02Life = []any{"auto", "", "0s", "1ns", "1s", "4h", "24h", "infinite", "-1ns", "-1s", "-24h", "abc", "4294967294s", "4294967295s", "4294967296s", "1200000h"}
+		"infinite", "-1s", "-9000s", "abc", "1800", "-30"}
+	c02Life = []any{"auto", "", "0s", "1ns", "1s", "4h", "24h", "infinite", "-1ns", "-1s", "-24h", "abc", "4294967294s", "4294967295s", "4294967296s", "1200000h",
+		"3600", "-30", "4294967296", "0"}
 )
 
 type c02Case struct {
